@@ -4,7 +4,7 @@ TIE = ("hand-written Gallina model tied to /repo by the correspondence run of th
        "vm_compute inside Coq on the inputs the implementation ran under CPython 3.7-3.10) and by "
        "harness/translate_src.py for the items in coq/Gen/Src.v, harness/translate_lines.py for the statement-level translations in "
        "coq/Gen/SrcLines.v (expand_items, collapse_items, _parse_bytes), translate_args.py / translate_key.py / translate_norm.py / translate_header.py for "
-       "Gen/SrcArgs.v, SrcKey.v, SrcNorm.v, SrcHeader.v, translate_toarg.py / translate_fromarg.py for Gen/SrcToArg.v, SrcFromArg.v and harness/translate_deps.py for the reference graph in coq/Gen/SrcDeps.v")
+       "Gen/SrcArgs.v, SrcKey.v, SrcNorm.v, SrcHeader.v, translate_toarg.py / translate_fromarg.py / translate_tables.py for Gen/SrcToArg.v, SrcFromArg.v, SrcTables.v and harness/translate_deps.py for the reference graph in coq/Gen/SrcDeps.v")
 COMMON_TB = [KERNEL, TIE,
              "harness (worker.py, enc.py, common.py): serialisation of inputs/results, canonicalisation, oracles",
              "axioms: none declared; Print Assumptions output of every property theorem is in coverage.print_assumptions"]
@@ -229,12 +229,23 @@ PROPS["C03"]["level_text"] += (
     "; the operand encoding is tied to the source by proof (C03_from_arg_is_the_source: the isinstance chain of from_arg with its docstring rule, "
     "re-translated in Gen/SrcFromArg.v, is the model's from_arg)")
 PROPS["C10"]["level_text"] += (
-    "; stage 3 of the encoder (mapping_to_items, both formats, with its NameError / TypeError cases) is tied to the source the same way "
-    "(C10_mapping_to_items_is_the_source)")
+    "; stage 3 is tied to the source the same way in both directions: mapping_to_items (both formats, with its NameError / TypeError cases: "
+    "C10_mapping_to_items_is_the_source) and items_to_mapping (the range filling of co_linetable; the index-driven while with its nested while of "
+    "co_lnotab, on the model's own fuel: C10_items_to_mapping_is_the_source, C10_items_to_mapping_lnotab_is_the_source)")
 PROPS["C03"]["level_text"] += (
     "; the jump relaxation is tied to the source too (C03_relaxation_step_is_the_source: the per-instruction body of the second pass of the "
     "`while changed_instruction_lengths` loop, re-translated on every run, computes the model's step - size, running offset, new operand, a flag that "
     "is only ever raised - and C03_update_jumps_is_the_iteration_of_that_step)")
+PROPS["C03"]["level_text"] += "; the header the encoder writes is tied as well (C03_encoder_header_is_the_source, Gen/SrcHeader.v EncodeHeader)"
+PROPS["C13"]["level_text"] += (
+    "; the targets recorded for the partition and the size override of jumps are tied to the source "
+    "(C13_recorded_targets_and_size_overrides_are_the_source: the decoding loop's fixed statements are compared verbatim, its computing part is translated); "
+    "the block-building loop itself, re-translated on every run, run on the recorded targets IS the model's split_blocks, the object of the partition "
+    "theorem (C13_block_building_loop_is_the_source)")
+PROPS["C09"]["level_text"] += (
+    "; the rule itself is tied to the source by proof (C09_found_index_is_the_source: ToArgs.found_index, re-translated on every run into "
+    "Gen/SrcTables.v over the model's table records, is the model's found_index for all tables, indices and key equalities)")
+PROPS["C03"]["level_text"] += "; FromArgs.__setitem__ / add likewise (C03_encoder_tables_are_the_source)"
 
 NOT_CLAIMED = {
 }
